@@ -33,6 +33,11 @@ def _nev(outer, inner):
     return sum(1 for o, i in zip(outer, inner) for t in range(len(o) - 1) if o[t] != o[t + 1] or i[t] != i[t + 1])
 
 
+def pre_build():
+    import translate
+    return [translate.gen_split_windows()]
+
+
 def gen_cases(rng, tier):
     n = {'quick': 60, 'thorough': 1200, 'search': 40}[tier]
     cases = []
